@@ -2350,6 +2350,9 @@ class LinearOperator(object):
                         self.shape, right_tensor.shape
                     )
                 )
+        elif right_tensor.dim() >= 2:
+            # the solvers hand `self._matmul` / `self._solve` to linear_cg: refuse here what A^{-1} R refuses
+            _matmul_broadcast_shape(self.shape, right_tensor.shape)
 
         func = Solve
         if left_tensor is None:
@@ -2436,6 +2439,7 @@ class LinearOperator(object):
         if rhs.dim() == 1:
             rhs = rhs.unsqueeze(-1)
             squeeze = True
+        _matmul_broadcast_shape(self.shape, rhs.shape)
 
         func = SqrtInvMatmul
         sqrt_inv_matmul_res, inv_quad_res = func.apply(self.representation_tree(), rhs, lhs, *self.representation())
